@@ -18,6 +18,10 @@ MODULES = {
     "entry": dict(file="kani/entry.rs", pkg="nucleo-matcher", inject="matcher/src/lib.rs", parent="", needs=["spec", "optimal"]),
     "boxcar": dict(file="kani/boxcar.rs", pkg="nucleo", inject="src/boxcar.rs", parent="boxcar"),
     "par_sort": dict(file="kani/par_sort.rs", pkg="nucleo", inject="src/par_sort.rs", parent="par_sort"),
+    "charmodel": dict(file="kani/charmodel.rs", pkg="nucleo-matcher", inject="matcher/src/chars.rs", parent="chars"),
+    "uni": dict(file="kani/uni.rs", pkg="nucleo-matcher", inject="matcher/src/lib.rs", parent="", needs=["spec", "optimal", "charmodel"]),
+    "pattern": dict(file="kani/pattern.rs", pkg="nucleo-matcher", inject="matcher/src/pattern.rs", parent="pattern", needs=["spec", "optimal"]),
+    "utf32": dict(file="kani/utf32.rs", pkg="nucleo-matcher", inject="matcher/src/utf32_str.rs", parent="utf32_str"),
     "score": dict(file="kani/score.rs", pkg="nucleo-matcher", inject="matcher/src/score.rs", parent="score", needs=["spec"]),
 }
 
@@ -193,16 +197,22 @@ for h in (3, 5):
            "substring_match_1_ascii: Some <=> char occurs; reports the leftmost occurrence with the highest bonus (true optimum); score 16+2*bonus; one index appended; None appends nothing",
            unwind=max(h + 3, 7), bound="ASCII haystack %d, needle 1, %s" % (h, CFGNAME[k]), cost=3)
     UC("c05-sub1-ascii-agree-h%d" % h, "exact", "sub1_ascii_agree::<%d,0>()" % h, {"C03": "quick"}, "bounded", EXACT_FNS[:1], "substring_match_1_ascii: variants agree", unwind=max(h + 3, 7), bound="ASCII haystack %d" % h)
-for (h, n) in ((3, 2), (4, 2), (5, 2), (4, 3), (5, 3), (6, 3), (6, 4)):
+ARMNAME = {0: "ignore_case off", 1: "ignore_case on, needle starts with a letter", 2: "ignore_case on, first letter at index 1", 3: "ignore_case on, no letter in the first two needle chars"}
+for (h, n) in ((3, 2), (4, 2), (4, 3), (5, 3), (6, 3), (6, 4)):
     for k in (0, 1):
-        tier = "quick" if h <= 5 else "thorough"
-        bound = "ASCII haystack %d, needle %d, %s" % (h, n, CFGNAME[k])
-        UC("c05-sub-ascii-dec-h%d-n%d-k%d" % (h, n, k), "exact", "sub_ascii_decision::<%d,%d,%d>()" % (h, n, k), {"C05": tier, "C10": tier}, "bounded", EXACT_FNS[1:3],
-           "substring_match_ascii: Some <=> the needle occurs contiguously in the normalised haystack", unwind=max(h + 3, 7), bound=bound, cost=4)
-        UC("c05-sub-ascii-wit-h%d-n%d-k%d" % (h, n, k), "exact", "sub_ascii_witness::<%d,%d,%d>()" % (h, n, k), {"C05": tier, "C02": tier, "C03": tier}, "bounded", EXACT_FNS[1:],
-           "substring_match_ascii: leftmost occurrence with the highest first-char bonus; contiguous valid witness; score == scheme; None appends nothing", unwind=max(h + 3, 7), bound=bound, cost=5)
+        for arm in (0, 1, 2, 3):
+            if k == 1 and arm in (1, 2) and (h, n) != (4, 3):
+                continue  # the bonus configuration only matters for which occurrence wins; covered by arms 0 and 3
+            tier = "quick" if h <= 5 else "thorough"
+            bound = "ASCII haystack %d, needle %d, %s, %s" % (h, n, CFGNAME[k], ARMNAME[arm])
+            tag = "h%d-n%d-k%d-a%d" % (h, n, k, arm)
+            UC("c05-sub-ascii-dec-" + tag, "exact", "sub_ascii_decision::<%d,%d,%d,%d>()" % (h, n, k, arm), {"C05": tier, "C10": tier}, "bounded", EXACT_FNS[1:3],
+               "substring_match_ascii: Some <=> the needle occurs contiguously in the normalised haystack", unwind=max(h + 3, 7), bound=bound, cost=6)
+            UC("c05-sub-ascii-wit-" + tag, "exact", "sub_ascii_witness::<%d,%d,%d,%d>()" % (h, n, k, arm), {"C05": tier, "C02": tier, "C03": tier}, "bounded", EXACT_FNS[1:],
+               "substring_match_ascii: leftmost occurrence with the highest first-char bonus; contiguous valid witness; score == scheme; None appends nothing", unwind=max(h + 3, 7), bound=bound, cost=7)
     if (h, n) in ((4, 2), (5, 3)):
-        UC("c03-sub-ascii-agree-h%d-n%d" % (h, n), "exact", "sub_ascii_agree::<%d,%d,0>()" % (h, n), {"C03": "quick"}, "bounded", EXACT_FNS[1:], "substring_match_ascii: variants agree", unwind=max(h + 3, 7), bound="ASCII haystack %d, needle %d" % (h, n))
+        for arm in (0, 1):
+            UC("c03-sub-ascii-agree-h%d-n%d-a%d" % (h, n, arm), "exact", "sub_ascii_agree::<%d,%d,0,%d>()" % (h, n, arm), {"C03": "quick"}, "bounded", EXACT_FNS[1:], "substring_match_ascii: variants agree", unwind=max(h + 3, 7), bound="ASCII haystack %d, needle %d, %s" % (h, n, ARMNAME[arm]))
 UC("c05-exact-canary", "exact", "exact_canary()", {"C05": "quick"}, "bounded", [], "canary", unwind=8, expect="fail", no_cover=True)
 
 # public entry points, ASCII x ASCII
@@ -288,6 +298,104 @@ for fn, tag, lens, what in SORT:
 UC("c18-canary", "par_sort", "c18_canary()", {"C18": "quick"}, "bounded", [], "canary", unwind=8, expect="fail", no_cover=True)
 
 # ---------------------------------------------------------------------------
+# code-point representation paths (character model + stubs)
+# ---------------------------------------------------------------------------
+CHAR_STUBS = [("crate::chars::to_lower_case", "crate::chars::verif_charmodel::model_fold"),
+              ("crate::chars::normalize::normalize", "crate::chars::verif_charmodel::model_normalize"),
+              ("crate::chars::char_class_non_ascii", "crate::chars::verif_charmodel::model_class_non_ascii")]
+CM_PROPS = {"C01": "quick", "C02": "quick", "C03": "quick", "C05": "quick"}
+U("c01-charmodel-valid-non-ascii", "charmodel", "c01_charmodel_valid_non_ascii", CM_PROPS, "complete", ["chars::to_lower_case", "chars::is_upper_case", "chars::normalize::normalize", "chars::char_class_non_ascii"],
+  "for each of the 16 non-ASCII characters of the model domain: the real to_lower_case / is_upper_case / normalize / char_class_non_ascii / is_whitespace return what the model table says", cost=6)
+U("c01-charmodel-valid-ascii", "charmodel", "c01_charmodel_valid_ascii", CM_PROPS, "complete", ["chars::to_lower_case", "chars::is_upper_case", "chars::normalize::normalize"],
+  "for all 128 ASCII characters: the real to_lower_case / is_upper_case / normalize return what the model table says")
+REPNAME = {1: "Unicode x Ascii", 2: "Unicode x Unicode", 3: "Ascii x Unicode(ASCII-only needle)", 4: "Unicode(ASCII-only haystack) x Ascii"}
+UNI_FNS = {0: ["Matcher::fuzzy_matcher_impl", "Matcher::prefilter_non_ascii", "Matcher::substring_match_1_non_ascii", "Matcher::fuzzy_match_optimal::<char,_>", "Matcher::exact_match_impl"],
+           1: ["Matcher::fuzzy_match_greedy_impl", "Matcher::prefilter_non_ascii", "Matcher::fuzzy_match_greedy_::<char,_>"],
+           2: ["Matcher::substring_match_impl", "Matcher::prefilter_non_ascii", "Matcher::substring_match_1_non_ascii", "Matcher::substring_match_non_ascii"],
+           3: ["Matcher::prefix_match", "Matcher::exact_match_impl", "Utf32Str::leading_white_space"],
+           4: ["Matcher::postfix_match", "Matcher::exact_match_impl", "Utf32Str::trailing_white_space"],
+           5: ["Matcher::exact_match", "Matcher::exact_match_impl"]}
+for rep in (1, 2, 3, 4):
+    for alg, (aname, _) in ALGS.items():
+        decp = ["C01"] if alg <= 1 else ["C05"]
+        if rep == 1:
+            shapes = ((4, 1), (4, 2), (3, 3), (5, 3))
+        elif rep == 2:
+            shapes = ((4, 1), (4, 2), (5, 3))
+        elif rep == 3:
+            shapes = ((3, 2),)
+        else:
+            shapes = ((4, 2),) if alg <= 2 else ()
+        for (h, n) in shapes:
+            heavy = alg == 0 and 2 <= n < h
+            tier = "thorough" if (h, n) == (5, 3) or (heavy and rep == 2) else "quick"
+            tag = "r%d-%s-h%d-n%d" % (rep, aname, h, n)
+            bound = "entry point %s, %s, haystack %d, needle %d, chars from the model domain (ASCII + 16 non-ASCII), DEFAULT config" % (aname, REPNAME[rep], h, n)
+            dp = dict((p, tier) for p in decp)
+            dp["C10"] = tier
+            UC("c01-uni-dec-" + tag, "uni", "uni_decision::<%d,%d,%d,%d,0>()" % (rep, alg, h, n), dp, "bounded", UNI_FNS[alg],
+               "%s_match (%s) succeeds exactly when the documented relation holds over the characters" % (aname, REPNAME[rep]),
+               unwind=max(h + 3, 7), bound=bound, cost=9 if heavy else 4, timeout=1500, stubs=CHAR_STUBS)
+            if rep in (1, 2):
+                wp = {"C02": tier, "C03": tier}
+                wp.update(dp)
+                UC("c02-uni-wit-" + tag, "uni", "uni_witness::<%d,%d,%d,%d,0>()" % (rep, alg, h, n), wp, "bounded", UNI_FNS[alg],
+                   "%s_indices (%s): same decision; W; contiguous+anchored for non-fuzzy kinds; score == fzf scheme; None appends nothing" % (aname, REPNAME[rep]),
+                   unwind=max(h + 3, 7), bound=bound, cost=9 if heavy else 5, timeout=1500, stubs=CHAR_STUBS)
+            if rep == 1 and (h, n) == (4, 2):
+                UC("c03-uni-agree-" + tag, "uni", "uni_agree::<%d,%d,%d,%d,0>()" % (rep, alg, h, n), {"C03": tier}, "bounded", UNI_FNS[alg],
+                   "%s (%s): score-only and indices variants agree" % (aname, REPNAME[rep]), unwind=max(h + 3, 7), bound=bound, cost=5, timeout=1500, stubs=CHAR_STUBS)
+UC("c01-uni-canary", "uni", "uni_canary()", {"C01": "quick", "C05": "quick"}, "bounded", [], "canary", unwind=8, expect="fail", no_cover=True, stubs=CHAR_STUBS)
+
+# ---------------------------------------------------------------------------
+# C15 pattern composition, C14 (partial) marker grammar
+# ---------------------------------------------------------------------------
+KN = {0: "fuzzy", 1: "substring", 2: "prefix", 3: "postfix", 4: "exact"}
+PAT_FNS = ["pattern::Atom::score", "pattern::Atom::indices", "pattern::Pattern::score", "pattern::Pattern::indices"]
+for (k1, n1, k2, n2) in ((0, 0, 1, 0), (0, 0, 1, 1), (1, 1, 0, 0), (2, 0, 3, 0), (2, 0, 3, 1), (4, 0, 0, 0), (4, 1, 2, 0), (1, 0, 4, 1)):
+    tag = "%s%s-%s%s" % ("not-" if n1 else "", KN[k1], "not-" if n2 else "", KN[k2])
+    heavy = 0 in (k1, k2)
+    UC("c15-pattern-" + tag, "pattern", "pattern_two_atoms::<3,%d,%s,%d,%s>()" % (k1, "true" if n1 else "false", k2, "true" if n2 else "false"),
+       {"C15": "quick" if not (k1 == 0 and k2 == 1 and n2) else "quick"}, "bounded", PAT_FNS,
+       "Pattern::score/indices of [%s%s atom (1 char), %s%s atom (2 chars)] == conjunction with negation, sum of positive scores, indices appended in atom order; the caller's matcher may carry any earlier case/normalisation setting" % ("negated " if n1 else "", KN[k1], "negated " if n2 else "", KN[k2]),
+       unwind=8, bound="ASCII haystack 3 over {a,b,c,A,space}, needles 1 and 2 chars over {a,b,c,space}, symbolic ignore_case/normalize per atom, DEFAULT bonuses", cost=9 if heavy else 5, timeout=1500)
+UC("c15-pattern-empty", "pattern", "pattern_empty()", {"C15": "quick"}, "bounded", PAT_FNS[2:], "an empty pattern matches everything with score 0 and appends nothing", unwind=8, bound="ASCII haystack 3")
+UC("c15-pattern-canary", "pattern", "pattern_canary()", {"C15": "quick"}, "bounded", [], "canary", unwind=8, expect="fail", no_cover=True)
+PARSE_STUB = [("crate::pattern::Atom::new_inner", "crate::pattern::verif_pattern::recording_new_inner")]
+for L in (1, 2, 3, 4, 5):
+    UC("c14-parse-markers-%d" % L, "pattern", "parse_markers::<%d>()" % L, {"C14": "quick"}, "bounded", ["pattern::Atom::parse"],
+       "Atom::parse on every ASCII string of %d bytes: negation, kind markers, escaped markers, escaped trailing dollar and the text handed to new_inner follow the documented grammar (new_inner replaced by a stub recording its arguments)" % L,
+       unwind=8, bound="all ASCII strings of exactly %d bytes (parse inspects at most the first two and last two bytes)" % L, cost=3, stubs=PARSE_STUB)
+for L in (2, 3, 4):
+    UC("c14-split-atoms-%d" % L, "pattern", "split_atoms::<%d>()" % L, {"C14": "quick" if L <= 3 else "thorough"}, "bounded", ["pattern::pattern_atoms"],
+       "pattern_atoms on every ASCII string of %d bytes: split at every whitespace not preceded by a backslash and nowhere else; pieces are consecutive slices" % L,
+       unwind=L + 4, bound="all ASCII strings of exactly %d bytes" % L, cost=8, timeout=1500)
+
+# ---------------------------------------------------------------------------
+# C17 (partial) string conversion
+# ---------------------------------------------------------------------------
+NOSEG = "--no-default-features --features unicode-normalization,unicode-casefold"
+U32_FNS = ["utf32_str::has_ascii_graphemes", "Utf32Str::new", "Utf32String::from(&str|String|Box<str>|Cow)"]
+for L in (2, 3, 4):
+    UC("c17-ascii-decision-%d" % L, "utf32", "c17_ascii_decision::<%d>()" % L, {"C17": "quick"}, "bounded", U32_FNS[:1],
+       "has_ascii_graphemes(s) <=> s is ASCII and contains no CR LF, for every valid UTF-8 string of %d bytes" % L, unwind=L + 4, bound="all valid UTF-8 strings of exactly %d bytes" % L, cost=4)
+for L in (0, 2, 3):
+    UC("c17-constructors-ascii-%d" % L, "utf32", "c17_constructors_ascii::<%d>()" % L, {"C17": "quick"}, "bounded", U32_FNS,
+       "ASCII text without CR LF: Utf32Str::new gives Ascii(original bytes); From<&str>, From<String>, From<Box<str>>, From<Cow> give equal content", unwind=L + 5, bound="all ASCII strings of %d bytes; unicode-segmentation feature OFF" % L, cost=6, features=NOSEG, timeout=1500)
+for L in (2, 3):
+    UC("c17-constructors-unicode-%d" % L, "utf32", "c17_constructors_unicode::<%d>()" % L, {"C17": "quick" if L == 2 else "thorough"}, "bounded", U32_FNS,
+       "non-ASCII or CR LF text: code-point form; borrowed/owned/Cow/buffer-based constructors produce the same content", unwind=L + 5, bound="all valid UTF-8 strings of %d bytes that are not plain ASCII; unicode-segmentation feature OFF (graphemes() == chars())" % L, cost=8, features=NOSEG, timeout=1500)
+ACC_FNS = ["Utf32Str::len", "Utf32Str::is_empty", "Utf32Str::get", "Utf32Str::first", "Utf32Str::last", "Utf32Str::chars", "Chars::next", "Chars::next_back", "Utf32Str::slice", "Utf32Str::slice_u32"]
+for L in (0, 3, 4):
+    UC("c17-accessors-ascii-%d" % L, "utf32", "c17_accessors_ascii::<%d>()" % L, {"C17": "quick"}, "bounded", ACC_FNS,
+       "Utf32Str::Ascii: len, is_empty, get, first, last, chars (both directions), slice / slice_u32 for every range form agree with the content", unwind=L + 4, bound="every ASCII content of length %d, every valid range" % L, cost=4)
+    UC("c17-accessors-unicode-%d" % L, "utf32", "c17_accessors_unicode::<%d>()" % L, {"C17": "quick"}, "bounded", ACC_FNS,
+       "Utf32Str::Unicode: same", unwind=L + 4, bound="every char content of length %d, every valid range" % L, cost=4)
+UC("c17-owned-accessors-3", "utf32", "c17_owned_accessors::<3>()", {"C17": "quick"}, "bounded", ["Utf32String::len", "Utf32String::is_empty", "Utf32String::slice", "Utf32String::slice_u32"],
+   "Utf32String accessors agree with Utf32Str's", unwind=8, bound="every char content of length 3, every valid range", cost=4)
+UC("c17-canary", "utf32", "c17_canary()", {"C17": "quick"}, "bounded", [], "canary", unwind=6, expect="fail", no_cover=True)
+
+# ---------------------------------------------------------------------------
 # Verus: step functions extracted verbatim + row induction (unbounded)
 # ---------------------------------------------------------------------------
 def UV(name, fns, props, functions, desc, **kw):
@@ -341,11 +449,22 @@ PROPERTIES = {
              "contract-based deductive verification (Kani bounded data-structure contract with drop-counting payload)",
              "partial: sequential non-panicking histories." + BOUNDED_NOTE,
              note="Trusted: Kani/CBMC; no unwinding (Kani aborts on panic); single thread.", assumptions=["single thread; no panics"]),
+    "C14": P("other", "partial: the marker grammar of Atom::parse (negation, kind markers, escaped markers, literal dollar, text passed on) for every ASCII string up to 5 bytes against a stub recording new_inner's arguments, and pattern_atoms' splitting at unescaped ASCII whitespace for every ASCII string up to 3-4 bytes. NOT decided: escape resolution and smart case/normalisation inside new_inner (String/grapheme machinery does not terminate under CBMC), non-ASCII text, reparse == parse.",
+             "contract-based deductive verification (Kani contract harnesses, bounded byte strings, callee replaced by a recording stub)",
+             "partial: marker grammar and splitting on bounded ASCII strings." + BOUNDED_NOTE,
+             note="Trusted: Kani/CBMC; Atom::new_inner is NOT verified (replaced by a stub that records its arguments).", assumptions=["Atom::new_inner stubbed in the parse obligations"]),
+    "C15": P("other", "bounded contract checking of Atom/Pattern score and indices composition: two-atom patterns of every kind pair listed, both polarities, symbolic case/normalisation flags, symbolic ASCII haystack of 3; reference = the entry point called on a fresh matcher per atom. MultiPattern and match_list are not covered.",
+             "contract-based deductive verification (Kani contract harnesses, bounded)",
+             "Pattern composition on bounded inputs; MultiPattern::score and match_list not covered." + BOUNDED_NOTE),
     "C16": P("proof", "every deciding obligation quantifies over the whole char domain (all 1,112,064 scalar values) x all configurations and is loop-free or fully unwound with unwinding assertions on: to_lower_case/is_upper_case == Unicode simple case folding oracle, normalize contract (documented blocks, NFKD base letter, idempotent, ASCII fixed), agreement of every normalising entry point incl. the prefilter's byte search. Complete proofs by Kani/CBMC on the real functions.",
              "contract-based deductive verification (Kani, complete over the full char domain)",
              "Complete proofs over the whole char domain.",
              note="Trusted: Kani/CBMC/cadical; Unicode oracle = Python unicodedata 14.0 cross-checked with regex-syntax 16.0 tables (generated/oracle_unicode.json); char_class_non_ascii replaced by 'returns any class' in the agreement obligation (sound over-approximation).",
              assumptions=["Unicode oracle = Python unicodedata 14.0 cross-checked with regex-syntax 16.0 tables"]),
+    "C17": P("other", "partial: representation decision (ASCII form <=> ASCII and no CR LF; bytes kept), equality of all constructors, and agreement of len/is_empty/get/first/last/chars/slice/slice_u32 (borrowed and owned type) with the content, on bounded strings. NOT decided: segmentation into extended grapheme clusters and projection to the first code point / CR LF -> LF (the unicode-segmentation dependency; constructor obligations run with that feature off), Display/Debug.",
+             "contract-based deductive verification (Kani contract harnesses, bounded strings; constructors in the crate's unicode-segmentation-off configuration)",
+             "partial: representation decision, constructor agreement, accessors." + BOUNDED_NOTE,
+             note="Trusted: Kani/CBMC; memmem shim; unicode-segmentation is NOT verified (feature switched off in the constructor obligations).", assumptions=["constructor obligations run with the unicode-segmentation feature off: graphemes() == str::chars()"]),
     "C18": P("other", "partial: contracts (sorted / partitioned / permutation via a symbolic probe value) on the ten sequential building blocks of the parallel sort for every small array over a strict weak order with ties. Larger slices, real parallel join, mid-sort cancellation and the total-order clause are not decided.",
              "contract-based deductive verification (Kani contract harnesses on the leaf functions, bounded arrays)",
              "partial: sequential building blocks on small arrays." + BOUNDED_NOTE,
@@ -358,9 +477,6 @@ NOT_APPLICABLE = [
     dict(property_id="C09", reason="data-race freedom under the language memory model is a happens-before property of executions; neither Kani nor Verus models Rust atomics' orderings on this code"),
     dict(property_id="C12", reason="histories of restart x tick x completing runs; Nucleo cannot be constructed or ticked under Kani (thread pool), no contract on a single function expresses it"),
     dict(property_id="C13", reason="pure interleaving property (tick vs. end of the background run); no contract within reach of a single-threaded deductive verifier can express it"),
-    dict(property_id="C14", reason="String/str::split_once/grapheme machinery does not finish symbolic execution for 3-4 symbolic bytes under CBMC and Verus has no str byte reasoning; see DESIGN.md (may be claimed partially later)"),
-    dict(property_id="C15", reason="not yet built (planned: bounded contracts on Atom/Pattern score composition); see DESIGN.md"),
-    dict(property_id="C17", reason="grapheme segmentation is the unicode-segmentation dependency; symbolic strings through it do not terminate under CBMC; see DESIGN.md (accessors may be claimed partially later)"),
     dict(property_id="C19", reason="depends on tick/run and injector threads (schedules and histories); outside single-threaded contract verification"),
     dict(property_id="C20", reason="every transition of interest goes through Nucleo::new/tick (rayon pool, spawn); stubbing them would verify a shell, and Verus has no specification for Arc::strong_count"),
 ]
